@@ -64,7 +64,11 @@ def run(chk):
                 continue
         if fi.name == "__init__":
             continue  # constructors are analysed through instantiation below
-        for rc in recv_classes:
+        # parameters bound as scalars by the role table that the function's own code treats as possibly array-valued (it tests
+        # hasattr(p, '__len__') / isinstance / np.isscalar, takes len(p) or subscripts p): a second pass binds them as arrays,
+        # because `p *= c` rebinds a scalar but writes into a caller's array
+        dual = _arrayish_params(fi)
+        for rc, as_array in [(rc, aa) for rc in recv_classes for aa in ((False, True) if dual else (False,))]:
             I = Interp(P)
             I.atoms = {R, DT}
             st = State()
@@ -80,6 +84,16 @@ def run(chk):
             args = auto_args(I, st, fi, P, flags="unknown")
             if fi.name == "reset_values":
                 args["new_values"] = rec_array("new_values", n="m")
+            if as_array:
+                changed = False
+                for pn in dual:
+                    cur = args.get(pn)
+                    if cur is None or cur.kind in (K_SCALAR, K_BOOL):
+                        args[pn] = AV(kind=K_ARRAY, dtype="real", shape=(LinExpr("K"),), origin=frozenset(["p:" + pn]),
+                                      tags=frozenset(["p:" + pn]))
+                        changed = True
+                if not changed:
+                    continue
             bound = I.bind(fi, pos, args, None, None)
             generalise_defaults(I, fi, bound, explicit=set(args))
             if fi.kwarg:
@@ -88,7 +102,8 @@ def run(chk):
             chk.absorb_interp(I)
             n_entries += 1
             chk.files.add(fi.module.relpath)
-            label = fi.qualname.split(".", 1)[1] + ("" if rc is None or isinstance(rc, str) else "@" + rc.name)
+            label = fi.qualname.split(".", 1)[1] + ("" if rc is None or isinstance(rc, str) else "@" + rc.name) + \
+                ("[array-valued %s]" % ",".join(sorted(dual)) if as_array else "")
             construct = "%s:%s" % (fi.module.relpath, label)
             bad = []
             notes = []
@@ -241,3 +256,17 @@ def _is_local(fi, name):
         if isinstance(n, ast.Name) and n.id == name and isinstance(n.ctx, ast.Store):
             return True
     return False
+
+
+def _arrayish_params(fi):
+    """Parameters that the function itself treats as possibly array-valued."""
+    out = set()
+    params = set(fi.params)
+    for n in ast.walk(fi.node):
+        if isinstance(n, ast.Subscript) and isinstance(n.value, ast.Name) and n.value.id in params:
+            out.add(n.value.id)
+        elif isinstance(n, ast.Call) and n.args and isinstance(n.args[0], ast.Name) and n.args[0].id in params:
+            f = ast.unparse(n.func)
+            if f in ("hasattr", "len", "isinstance", "np.isscalar", "np.ndim", "np.shape", "np.size"):
+                out.add(n.args[0].id)
+    return out
